@@ -56,6 +56,7 @@ type Ctx struct {
 	funcsAnalysed map[string]bool
 	fnCache       map[*ssa.Function]*fnInfo
 	bceCache      map[string][]bceSite
+	misc          map[string]any
 }
 
 // RuleStat keeps the per-rule instance counts so a vacuous pass is visible.
